@@ -23,6 +23,11 @@
 (*   the buffers is admitted as the second layout, mb = min(m, n))         *)
 (*   continue iff idx < cap /\ (norm > tol * H[1,0] \/ idx <= 0);          *)
 (*   nothing is trimmed.                                                   *)
+(* tol = 0 ("never stop early on round-off") is an ordinary tolerance: the *)
+(*   numeric test degenerates to "residual > 0", which is MC_Krylov's      *)
+(*   exact test whenever the residuals are exact floating-point numbers    *)
+(*   (exact-breakdown family, Krylov!FPExact); Trace_LoopControl then      *)
+(*   demands exactly that outcome of every recorded evaluation (field kd). *)
 (* while_loop_winfo (cola/utils/torch_tqdm.py)                             *)
 (*   info.iterations = number of condition evaluations; one error value is *)
 (*   appended per evaluation and one after the loop, the first two dropped.*)
